@@ -200,6 +200,26 @@ BREAKING = [
     ('c15-line-wrong-path', ['C15'], [(A, "        path = path_or_source\n        with open(path) as f:", "        path = os.path.basename(path_or_source)\n        with open(path_or_source) as f:")]),
     ('c15-new-int', ['C15'], [(A, "        blob = Blob(item.line, item.value.encode('utf-8'))", "        blob = Blob(item.line, item.value.encode('utf-8') * int(item.value[:0] or '1', base=0))")]),
     ('c15-immediate-str-line', ['C15'], [(A, "        raise AssemblerError('empty immediate value', line)", "        raise AssemblerError('empty immediate value', str(line))")]),
+    # idioms of the abstract-interpretation engine: context managers, closures, dispatch, provenance of the size token
+    ('c15-ctx-wrong-type', ['C15'], [(A, 'def log_constant(pass_name, item, value):', 'import contextlib\n\n\n@contextlib.contextmanager\ndef assembler_errors(line, exc_type):\n    try:\n        yield\n    except exc_type as e:\n        raise AssemblerError(str(e), line)\n\n\ndef log_constant(pass_name, item, value):'), (A, '        try:\n            # atomic insts expect aq and rl as kwargs\n            if isinstance(item, ATypeInstruction) or isinstance(item, ALTypeInstruction):\n                *args, aq, rl = item.args()\n                code = encode_func(*args, aq=aq, rl=rl)\n            else:\n                args = item.args()\n                code = encode_func(*args)\n        except ValueError as e:\n            raise AssemblerError(str(e), item.line)\n', '        with assembler_errors(item.line, KeyError):\n            # atomic insts expect aq and rl as kwargs\n            if isinstance(item, (ATypeInstruction, ALTypeInstruction)):\n                *args, aq, rl = item.args()\n                code = encode_func(*args, aq=aq, rl=rl)\n            else:\n                code = encode_func(*item.args())\n')]),
+    ('c15-ctx-line-none', ['C15'], [(A, 'def log_constant(pass_name, item, value):', 'import contextlib\n\n\n@contextlib.contextmanager\ndef assembler_errors(line, exc_type):\n    try:\n        yield\n    except exc_type as e:\n        raise AssemblerError(str(e), line)\n\n\ndef log_constant(pass_name, item, value):'), (A, '        try:\n            # atomic insts expect aq and rl as kwargs\n            if isinstance(item, ATypeInstruction) or isinstance(item, ALTypeInstruction):\n                *args, aq, rl = item.args()\n                code = encode_func(*args, aq=aq, rl=rl)\n            else:\n                args = item.args()\n                code = encode_func(*args)\n        except ValueError as e:\n            raise AssemblerError(str(e), item.line)\n', '        with assembler_errors(None, ValueError):\n            # atomic insts expect aq and rl as kwargs\n            if isinstance(item, (ATypeInstruction, ALTypeInstruction)):\n                *args, aq, rl = item.args()\n                code = encode_func(*args, aq=aq, rl=rl)\n            else:\n                code = encode_func(*item.args())\n')]),
+    ('c15-ctx-relabel', ['C15'], [(A, 'def log_constant(pass_name, item, value):', 'import contextlib\n\n\n@contextlib.contextmanager\ndef assembler_errors(line, exc_type):\n    try:\n        yield\n    except exc_type as e:\n        raise AssemblerError(str(e), line)\n\n\ndef log_constant(pass_name, item, value):'), (A, '            include_lines = read_lines(include_path, include=True, include_dirs=include_dirs)\n            lines.extend(include_lines)', '            with assembler_errors(line, Exception):\n                include_lines = read_lines(include_path, include=True, include_dirs=include_dirs)\n            lines.extend(include_lines)')]),
+    ('c15-closure-blob-none', ['C15'], [(A, "def resolve_strings(items):\n    new_items = []\n    for item in items:\n        if not isinstance(item, String):\n            new_items.append(item)\n            continue\n\n        blob = Blob(item.line, item.value.encode('utf-8'))\n        new_items.append(blob)\n\n        log_conversion('resolve_strings', item, blob)\n\n    return new_items\n", "def convert_items(pass_name, items, item_type, convert):\n    out = []\n    for item in items:\n        if isinstance(item, item_type):\n            new_item = convert(item)\n            out.append(new_item)\n            log_conversion(pass_name, item, new_item)\n        else:\n            out.append(item)\n    return out\n\n\ndef resolve_strings(items):\n    def encode(item):\n        return Blob(None, item.value.encode('utf-8'))\n\n    return convert_items('resolve_strings', items, String, encode)\n")]),
+    ('c15-lookup-other-field', ['C15'], [(A, "                inst = CBTypeInstruction(item.line, compressed, item.rd, Arithmetic(str(lookup_register(item.rs2))))\n            elif compressed == 'c.srai':", "                inst = CBTypeInstruction(item.line, compressed, item.rd, Arithmetic(str(lookup_register(item.name))))\n            elif compressed == 'c.srai':")]),
+    ('c15-lookup-undominated', ['C15'], [(A, "            RegsMatch('rd', 'rs1'),\n            RegNotEquals('rs2', 0),\n            RegBetween('rs2', 0, 2**5 - 1),\n        ],\n        'c.lwsp': [", "            RegsMatch('rd', 'rs1'),\n        ],\n        'c.lwsp': [")]),
+    ('c15-size-token-first', ['C15'], [(A, '        _, path, size = tokens\n        size = int(size, base=0)\n', '        _, size, path = tokens\n        size = int(size, base=0)\n')]),
+    ('c15-size-not-appended', ['C15'], [(A, "            line.contents = '{} {}'.format(raw_line, size)", "            line.contents = '{} {}'.format(raw_line, rel_path)")]),
+    ('c15-align-int-unguarded', ['C15'], [(A, "        try:\n            alignment = int(alignment, base=0)\n        except ValueError:\n            raise AssemblerError('alignment must be an integer', line)", '        alignment = int(alignment, base=0)')]),
+    ('c15-step-table-skips-pass', ['C15'], [(A, '    items = resolve_strings(items)\n    items = resolve_sequences(items)\n', '    for step in (resolve_sequences,):\n        items = step(items)\n')]),
+    ('c15-generator-blob-none', ['C15'], [(A, "def resolve_strings(items):\n    new_items = []\n    for item in items:\n        if not isinstance(item, String):\n            new_items.append(item)\n            continue\n\n        blob = Blob(item.line, item.value.encode('utf-8'))\n        new_items.append(blob)\n\n        log_conversion('resolve_strings', item, blob)\n\n    return new_items\n", "def resolve_strings(items):\n    for item in items:\n        if not isinstance(item, String):\n            yield item\n            continue\n\n        blob = Blob(None, item.value.encode('utf-8'))\n        log_conversion('resolve_strings', item, blob)\n        yield blob\n")]),
+    ('c15-generator-drops-conversion', ['C15'], [(A, "def resolve_strings(items):\n    new_items = []\n    for item in items:\n        if not isinstance(item, String):\n            new_items.append(item)\n            continue\n\n        blob = Blob(item.line, item.value.encode('utf-8'))\n        new_items.append(blob)\n\n        log_conversion('resolve_strings', item, blob)\n\n    return new_items\n", 'def resolve_strings(items):\n    for item in items:\n        yield item\n')]),
+    ('c15-class-ctx-wrong-type', ['C15'], [(A, 'def log_constant(pass_name, item, value):', 'class LineErrors:\n    """re-raise the given low-level errors of the enclosed block as AssemblerErrors of a line"""\n\n    def __init__(self, line, *types):\n        self.line = line\n        self.types = types\n\n    def __enter__(self):\n        return self\n\n    def __exit__(self, exc_type, exc, tb):\n        if exc_type is not None and issubclass(exc_type, self.types):\n            raise AssemblerError(str(exc), self.line) from exc\n        return False\n\n\ndef log_constant(pass_name, item, value):'), (A, '        try:\n            # atomic insts expect aq and rl as kwargs\n            if isinstance(item, ATypeInstruction) or isinstance(item, ALTypeInstruction):\n                *args, aq, rl = item.args()\n                code = encode_func(*args, aq=aq, rl=rl)\n            else:\n                args = item.args()\n                code = encode_func(*args)\n        except ValueError as e:\n            raise AssemblerError(str(e), item.line)\n', '        with LineErrors(item.line, KeyError):\n            # atomic insts expect aq and rl as kwargs\n            if isinstance(item, (ATypeInstruction, ALTypeInstruction)):\n                *args, aq, rl = item.args()\n                code = encode_func(*args, aq=aq, rl=rl)\n            else:\n                code = encode_func(*item.args())\n')]),
+    ('c15-class-ctx-no-line', ['C15'], [(A, 'def log_constant(pass_name, item, value):', 'class LineErrors:\n    """re-raise the given low-level errors of the enclosed block as AssemblerErrors of a line"""\n\n    def __init__(self, line, *types):\n        self.line = line\n        self.types = types\n\n    def __enter__(self):\n        return self\n\n    def __exit__(self, exc_type, exc, tb):\n        if exc_type is not None and issubclass(exc_type, self.types):\n            raise AssemblerError(str(exc), None) from exc\n        return False\n\n\ndef log_constant(pass_name, item, value):'), (A, '        try:\n            # atomic insts expect aq and rl as kwargs\n            if isinstance(item, ATypeInstruction) or isinstance(item, ALTypeInstruction):\n                *args, aq, rl = item.args()\n                code = encode_func(*args, aq=aq, rl=rl)\n            else:\n                args = item.args()\n                code = encode_func(*args)\n        except ValueError as e:\n            raise AssemblerError(str(e), item.line)\n', '        with LineErrors(item.line, ValueError):\n            # atomic insts expect aq and rl as kwargs\n            if isinstance(item, (ATypeInstruction, ALTypeInstruction)):\n                *args, aq, rl = item.args()\n                code = encode_func(*args, aq=aq, rl=rl)\n            else:\n                code = encode_func(*item.args())\n')]),
+    ('c15-decorator-wrong-type', ['C15'], [(A, 'def resolve_instructions(items):', 'def converts_value_errors(fn):\n    def wrapper(item):\n        try:\n            return fn(item)\n        except KeyError as e:\n            raise AssemblerError(str(e), item.line)\n    return wrapper\n\n\n@converts_value_errors\ndef encode_item(item):\n    encode_func = INSTRUCTIONS[item.name]\n    if isinstance(item, (ATypeInstruction, ALTypeInstruction)):\n        *args, aq, rl = item.args()\n        return encode_func(*args, aq=aq, rl=rl)\n    return encode_func(*item.args())\n\n\ndef resolve_instructions(items):'), (A, '        encode_func = INSTRUCTIONS[item.name]\n        try:\n            # atomic insts expect aq and rl as kwargs\n            if isinstance(item, ATypeInstruction) or isinstance(item, ALTypeInstruction):\n                *args, aq, rl = item.args()\n                code = encode_func(*args, aq=aq, rl=rl)\n            else:\n                args = item.args()\n                code = encode_func(*args)\n        except ValueError as e:\n            raise AssemblerError(str(e), item.line)\n', '        code = encode_item(item)\n')]),
+    ('c15-registry-misses-pass', ['C15'], [(A, 'def resolve_strings(items):', 'LATE_PASSES = []\n\n\ndef late_pass(fn):\n    LATE_PASSES.append(fn)\n    return fn\n\n\n@late_pass\ndef resolve_strings(items):'), (A, 'def resolve_sequences(items):', '@late_pass\ndef resolve_sequences(items):'), (A, 'def transform_shorthand_packs(items):', '@late_pass\ndef transform_shorthand_packs(items):'), (A, 'def resolve_include_bytes(items):', '@late_pass\ndef resolve_include_bytes(items):'), (A, '    items = resolve_strings(items)\n    items = resolve_sequences(items)\n    items = transform_shorthand_packs(items)\n    items = resolve_packs(items)\n    items = resolve_include_bytes(items)\n', '    for late in LATE_PASSES:\n        items = late(items)\n')]),
+    ('c15-reduce-misses-pass', ['C15'], [(A, '    items = resolve_strings(items)\n    items = resolve_sequences(items)\n    items = transform_shorthand_packs(items)\n    items = resolve_packs(items)\n    items = resolve_include_bytes(items)\n', '    import functools\n    late = [resolve_strings, resolve_sequences, transform_shorthand_packs, resolve_include_bytes]\n    items = functools.reduce(lambda acc, step: step(acc), late, items)\n')]),
+    ('c15-callable-pass-no-line', ['C15'], [(A, "def resolve_strings(items):\n    new_items = []\n    for item in items:\n        if not isinstance(item, String):\n            new_items.append(item)\n            continue\n\n        blob = Blob(item.line, item.value.encode('utf-8'))\n        new_items.append(blob)\n\n        log_conversion('resolve_strings', item, blob)\n\n    return new_items\n", "class StringResolver:\n    def __init__(self, encoding):\n        self.encoding = encoding\n\n    def __call__(self, items):\n        new_items = []\n        for item in items:\n            if isinstance(item, String):\n                blob = Blob(None, item.value.encode(self.encoding))\n                log_conversion('resolve_strings', item, blob)\n                new_items.append(blob)\n            else:\n                new_items.append(item)\n        return new_items\n\n\nresolve_strings = StringResolver('utf-8')\n")]),
+    ('c15-located-wrong-type', ['C15'], [(A, 'def resolve_instructions(items):', 'def located(fn, line, *args, **kwargs):\n    try:\n        return fn(*args, **kwargs)\n    except KeyError as e:\n        raise AssemblerError(str(e), line)\n\n\ndef resolve_instructions(items):'), (A, '        try:\n            # atomic insts expect aq and rl as kwargs\n            if isinstance(item, ATypeInstruction) or isinstance(item, ALTypeInstruction):\n                *args, aq, rl = item.args()\n                code = encode_func(*args, aq=aq, rl=rl)\n            else:\n                args = item.args()\n                code = encode_func(*args)\n        except ValueError as e:\n            raise AssemblerError(str(e), item.line)\n', '        # atomic insts expect aq and rl as kwargs\n        if isinstance(item, (ATypeInstruction, ALTypeInstruction)):\n            *args, aq, rl = item.args()\n            code = located(encode_func, item.line, *args, aq=aq, rl=rl)\n        else:\n            code = located(encode_func, item.line, *item.args())\n')]),
     # ---- C16 --------------------------------------------------------------------------------------------------
     ('c16-mutable-default', ['C16'], [(A, "def assemble(path_or_source, *, constants=None, labels=None, compress=False, include_dirs=None):", "def assemble(path_or_source, *, constants={}, labels={}, compress=False, include_dirs=None):")]),
     ('c16-registers-alias', ['C16'], [(A, "        constants[item.name] = value\n", "        constants[item.name] = value\n        REGISTERS[item.name] = value\n")]),
@@ -336,6 +356,34 @@ PRESERVING = [
                                  "def resolve_aligns(items, labels):\n    offset = 0\n    new_items = []\n    for item in items:\n        if not isinstance(item, Align):\n            offset += item.size()\n            new_items.append(item)\n            continue\n\n        # determine actual padding and amount to shrink subsequent labels\n        padding = item.resolution_size(offset)\n        shrink = item.size() - padding \n\n        # shrink subsequent labels\n        new_labels = {k: v - shrink for k, v in labels.items() if v > offset}\n        labels.update(new_labels)\n\n        # skip if already aligned\n        if padding == 0:\n            continue\n\n        offset += padding")]),
     ('p-extra-mnemonic', None, [(A, "C_SWSP     = partial(css_type, opcode=0b10, funct3=0b110)\n", "C_SWSP     = partial(css_type, opcode=0b10, funct3=0b110)\nC_FSWSP    = partial(css_type, opcode=0b10, funct3=0b111)\n"),
                                 (A, "CSS_TYPE_INSTRUCTIONS = {\n    'c.swsp':     C_SWSP,\n}", "CSS_TYPE_INSTRUCTIONS = {\n    'c.swsp':     C_SWSP,\n    'c.fswsp':    C_FSWSP,\n}")]),
+    # ---- C15: idioms the abstract interpretation understands (restricted to C15: other engines need not follow them) ----
+    ('p15-ctx-manager', ['C15'], [(A, 'def log_constant(pass_name, item, value):', 'import contextlib\n\n\n@contextlib.contextmanager\ndef assembler_errors(line, exc_type):\n    try:\n        yield\n    except exc_type as e:\n        raise AssemblerError(str(e), line)\n\n\ndef log_constant(pass_name, item, value):'), (A, '        try:\n            # atomic insts expect aq and rl as kwargs\n            if isinstance(item, ATypeInstruction) or isinstance(item, ALTypeInstruction):\n                *args, aq, rl = item.args()\n                code = encode_func(*args, aq=aq, rl=rl)\n            else:\n                args = item.args()\n                code = encode_func(*args)\n        except ValueError as e:\n            raise AssemblerError(str(e), item.line)\n', '        with assembler_errors(item.line, ValueError):\n            # atomic insts expect aq and rl as kwargs\n            if isinstance(item, (ATypeInstruction, ALTypeInstruction)):\n                *args, aq, rl = item.args()\n                code = encode_func(*args, aq=aq, rl=rl)\n            else:\n                code = encode_func(*item.args())\n')]),
+    ('p15-ctx-manager-tuple', ['C15'], [(A, 'def log_constant(pass_name, item, value):', 'import contextlib\n\n\n@contextlib.contextmanager\ndef assembler_errors(line, exc_type):\n    try:\n        yield\n    except exc_type as e:\n        raise AssemblerError(str(e), line)\n\n\ndef log_constant(pass_name, item, value):'), (A, '        try:\n            # atomic insts expect aq and rl as kwargs\n            if isinstance(item, ATypeInstruction) or isinstance(item, ALTypeInstruction):\n                *args, aq, rl = item.args()\n                code = encode_func(*args, aq=aq, rl=rl)\n            else:\n                args = item.args()\n                code = encode_func(*args)\n        except ValueError as e:\n            raise AssemblerError(str(e), item.line)\n', '        with assembler_errors(item.line, (KeyError, ValueError)):\n            # atomic insts expect aq and rl as kwargs\n            if isinstance(item, (ATypeInstruction, ALTypeInstruction)):\n                *args, aq, rl = item.args()\n                code = encode_func(*args, aq=aq, rl=rl)\n            else:\n                code = encode_func(*item.args())\n')]),
+    ('p15-higher-order-pass', ['C15'], [(A, "def resolve_strings(items):\n    new_items = []\n    for item in items:\n        if not isinstance(item, String):\n            new_items.append(item)\n            continue\n\n        blob = Blob(item.line, item.value.encode('utf-8'))\n        new_items.append(blob)\n\n        log_conversion('resolve_strings', item, blob)\n\n    return new_items\n", "def convert_items(pass_name, items, item_type, convert):\n    out = []\n    for item in items:\n        if isinstance(item, item_type):\n            new_item = convert(item)\n            out.append(new_item)\n            log_conversion(pass_name, item, new_item)\n        else:\n            out.append(item)\n    return out\n\n\ndef resolve_strings(items):\n    def encode(item):\n        return Blob(item.line, item.value.encode('utf-8'))\n\n    return convert_items('resolve_strings', items, String, encode)\n")]),
+    ('p15-lookup-via-local', ['C15'], [(A, "                inst = CBTypeInstruction(item.line, compressed, item.rd, Arithmetic(str(lookup_register(item.rs2))))\n            elif compressed == 'c.srai':", "                shamt = lookup_register(item.rs2)\n                amount = Arithmetic(str(shamt))\n                inst = CBTypeInstruction(item.line, compressed, item.rd, amount)\n            elif compressed == 'c.srai':")]),
+    ('p15-lookup-via-closure', ['C15'], [(A, "                inst = CBTypeInstruction(item.line, compressed, item.rd, Arithmetic(str(lookup_register(item.rs2))))\n            elif compressed == 'c.srai':", "                def shamt_of(inst):\n                    return Arithmetic(str(lookup_register(getattr(inst, 'rs2'))))\n                inst = CBTypeInstruction(item.line, compressed, item.rd, shamt_of(item))\n            elif compressed == 'c.srai':")]),
+    ('p15-size-token-index', ['C15'], [(A, '        _, path, size = tokens\n        size = int(size, base=0)\n', '        nbytes = int(tokens[2], base=0)\n        size = nbytes\n')]),
+    ('p15-size-token-renamed', ['C15'], [(A, '        _, path, size = tokens\n        size = int(size, base=0)\n', '        keyword, where, byte_count = tokens\n        size = int(byte_count, base=0)\n')]),
+    ('p15-size-fstring', ['C15'], [(A, "            line.contents = '{} {}'.format(raw_line, size)", "            line.contents = f'{raw_line} {size}'")]),
+    ('p15-size-concat', ['C15'], [(A, "            line.contents = '{} {}'.format(raw_line, size)", "            line.contents = raw_line + ' ' + str(size)")]),
+    ('p15-line-keywords', ['C15'], [(A, '        line = Line(path, i, raw_line)', '        line = Line(file=path, number=i, contents=raw_line)')]),
+    ('p15-enumerate-plus-one', ['C15'], [(A, '    for i, raw_line in enumerate(source.splitlines(), start=1):', '    for i, raw_line in enumerate(source.splitlines()):'), (A, '        line = Line(path, i, raw_line)', '        line = Line(path, i + 1, raw_line)')]),
+    ('p15-reraise-same-line', ['C15'], [(A, '            include_lines = read_lines(include_path, include=True, include_dirs=include_dirs)\n            lines.extend(include_lines)', '            try:\n                include_lines = read_lines(include_path, include=True, include_dirs=include_dirs)\n            except AssemblerError as e:\n                raise AssemblerError(e.message, e.line)\n            lines.extend(include_lines)')]),
+    ('p15-reraise-bare', ['C15'], [(A, '            include_lines = read_lines(include_path, include=True, include_dirs=include_dirs)\n            lines.extend(include_lines)', "            try:\n                include_lines = read_lines(include_path, include=True, include_dirs=include_dirs)\n            except AssemblerError:\n                log.info('error in included file')\n                raise\n            lines.extend(include_lines)")]),
+    ('p15-step-table', ['C15'], [(A, '    items = resolve_strings(items)\n    items = resolve_sequences(items)\n', '    for step in (resolve_strings, resolve_sequences):\n        items = step(items)\n')]),
+    ('p15-blob-check-tuple', ['C15'], [(A, "        if not isinstance(item, Blob):\n            raise ValueError('expected only blobs at this point')", "        if not isinstance(item, (Blob,)):\n            raise ValueError('expected only blobs at this point')")]),
+    ('p15-lookup-get', ['C15'], [(A, "    try:\n        reg = REGISTERS[reg]\n    except KeyError:\n        raise ValueError('register must be a valid integer, name, or alias: {}'.format(reg))", "    number = REGISTERS.get(reg)\n    if number is None:\n        raise ValueError('register must be a valid integer, name, or alias: {}'.format(reg))\n    reg = number")]),
+    ('p15-generator-pass', ['C15'], [(A, "def resolve_strings(items):\n    new_items = []\n    for item in items:\n        if not isinstance(item, String):\n            new_items.append(item)\n            continue\n\n        blob = Blob(item.line, item.value.encode('utf-8'))\n        new_items.append(blob)\n\n        log_conversion('resolve_strings', item, blob)\n\n    return new_items\n", "def resolve_strings(items):\n    for item in items:\n        if not isinstance(item, String):\n            yield item\n            continue\n\n        blob = Blob(item.line, item.value.encode('utf-8'))\n        log_conversion('resolve_strings', item, blob)\n        yield blob\n")]),
+    ('p15-generator-pass-list', ['C15'], [(A, "def resolve_strings(items):\n    new_items = []\n    for item in items:\n        if not isinstance(item, String):\n            new_items.append(item)\n            continue\n\n        blob = Blob(item.line, item.value.encode('utf-8'))\n        new_items.append(blob)\n\n        log_conversion('resolve_strings', item, blob)\n\n    return new_items\n", "def resolve_strings(items):\n    for item in items:\n        if not isinstance(item, String):\n            yield item\n            continue\n\n        blob = Blob(item.line, item.value.encode('utf-8'))\n        log_conversion('resolve_strings', item, blob)\n        yield blob\n"), (A, '    items = resolve_strings(items)\n', '    items = list(resolve_strings(items))\n')]),
+    ('p15-generator-yield-from', ['C15'], [(A, "def resolve_strings(items):\n    new_items = []\n    for item in items:\n        if not isinstance(item, String):\n            new_items.append(item)\n            continue\n\n        blob = Blob(item.line, item.value.encode('utf-8'))\n        new_items.append(blob)\n\n        log_conversion('resolve_strings', item, blob)\n\n    return new_items\n", "def convert_strings(items):\n    for item in items:\n        if isinstance(item, String):\n            blob = Blob(item.line, item.value.encode('utf-8'))\n            log_conversion('resolve_strings', item, blob)\n            yield blob\n\n\ndef resolve_strings(items):\n    yield from (item for item in items if not isinstance(item, String))\n    yield from convert_strings(items)\n")]),
+    ('p15-class-ctx-manager', ['C15'], [(A, 'def log_constant(pass_name, item, value):', 'class LineErrors:\n    """re-raise the given low-level errors of the enclosed block as AssemblerErrors of a line"""\n\n    def __init__(self, line, *types):\n        self.line = line\n        self.types = types\n\n    def __enter__(self):\n        return self\n\n    def __exit__(self, exc_type, exc, tb):\n        if exc_type is not None and issubclass(exc_type, self.types):\n            raise AssemblerError(str(exc), self.line) from exc\n        return False\n\n\ndef log_constant(pass_name, item, value):'), (A, '        try:\n            # atomic insts expect aq and rl as kwargs\n            if isinstance(item, ATypeInstruction) or isinstance(item, ALTypeInstruction):\n                *args, aq, rl = item.args()\n                code = encode_func(*args, aq=aq, rl=rl)\n            else:\n                args = item.args()\n                code = encode_func(*args)\n        except ValueError as e:\n            raise AssemblerError(str(e), item.line)\n', '        with LineErrors(item.line, ValueError):\n            # atomic insts expect aq and rl as kwargs\n            if isinstance(item, (ATypeInstruction, ALTypeInstruction)):\n                *args, aq, rl = item.args()\n                code = encode_func(*args, aq=aq, rl=rl)\n            else:\n                code = encode_func(*item.args())\n')]),
+    ('p15-decorator-convert', ['C15'], [(A, 'def resolve_instructions(items):', 'def converts_value_errors(fn):\n    def wrapper(item):\n        try:\n            return fn(item)\n        except ValueError as e:\n            raise AssemblerError(str(e), item.line)\n    return wrapper\n\n\n@converts_value_errors\ndef encode_item(item):\n    encode_func = INSTRUCTIONS[item.name]\n    if isinstance(item, (ATypeInstruction, ALTypeInstruction)):\n        *args, aq, rl = item.args()\n        return encode_func(*args, aq=aq, rl=rl)\n    return encode_func(*item.args())\n\n\ndef resolve_instructions(items):'), (A, '        encode_func = INSTRUCTIONS[item.name]\n        try:\n            # atomic insts expect aq and rl as kwargs\n            if isinstance(item, ATypeInstruction) or isinstance(item, ALTypeInstruction):\n                *args, aq, rl = item.args()\n                code = encode_func(*args, aq=aq, rl=rl)\n            else:\n                args = item.args()\n                code = encode_func(*args)\n        except ValueError as e:\n            raise AssemblerError(str(e), item.line)\n', '        code = encode_item(item)\n')]),
+    ('p15-pass-registry', ['C15'], [(A, 'def resolve_strings(items):', 'LATE_PASSES = []\n\n\ndef late_pass(fn):\n    LATE_PASSES.append(fn)\n    return fn\n\n\n@late_pass\ndef resolve_strings(items):'), (A, 'def resolve_sequences(items):', '@late_pass\ndef resolve_sequences(items):'), (A, 'def transform_shorthand_packs(items):', '@late_pass\ndef transform_shorthand_packs(items):'), (A, 'def resolve_packs(items):', '@late_pass\ndef resolve_packs(items):'), (A, 'def resolve_include_bytes(items):', '@late_pass\ndef resolve_include_bytes(items):'), (A, '    items = resolve_strings(items)\n    items = resolve_sequences(items)\n    items = transform_shorthand_packs(items)\n    items = resolve_packs(items)\n    items = resolve_include_bytes(items)\n', '    for late in LATE_PASSES:\n        items = late(items)\n')]),
+    ('p15-line-dataclass', ['C15'], [(A, 'class Line:\n\n    def __init__(self, file, number, contents):\n        self.file = file\n        self.number = number\n        self.contents = contents\n        # resolved path of the file named by an include_bytes line (set by the reader)\n        self.include_path = None\n', 'import dataclasses\nimport typing\n\n\n@dataclasses.dataclass\nclass Line:\n    file: str\n    number: int\n    contents: str\n    # resolved path of the file named by an include_bytes line (set by the reader)\n    include_path: typing.Optional[str] = None\n')]),
+    ('p15-linetokens-namedtuple', ['C15'], [(A, 'class LineTokens:\n\n    def __init__(self, line, tokens):\n        self.line = line\n        self.tokens = tokens\n', 'import typing\n\n\nclass LineTokens(typing.NamedTuple):\n    line: Line\n    tokens: list\n'), (A, '    line = line_tokens.line\n    tokens = line_tokens.tokens\n', '    line, tokens = line_tokens\n')]),
+    ('p15-reduce-driver', ['C15'], [(A, '    items = resolve_strings(items)\n    items = resolve_sequences(items)\n    items = transform_shorthand_packs(items)\n    items = resolve_packs(items)\n    items = resolve_include_bytes(items)\n', '    import functools\n    late = [resolve_strings, resolve_sequences, transform_shorthand_packs, resolve_packs, resolve_include_bytes]\n    items = functools.reduce(lambda acc, step: step(acc), late, items)\n')]),
+    ('p15-callable-pass-object', ['C15'], [(A, "def resolve_strings(items):\n    new_items = []\n    for item in items:\n        if not isinstance(item, String):\n            new_items.append(item)\n            continue\n\n        blob = Blob(item.line, item.value.encode('utf-8'))\n        new_items.append(blob)\n\n        log_conversion('resolve_strings', item, blob)\n\n    return new_items\n", "class StringResolver:\n    def __init__(self, encoding):\n        self.encoding = encoding\n\n    def __call__(self, items):\n        new_items = []\n        for item in items:\n            if isinstance(item, String):\n                blob = Blob(item.line, item.value.encode(self.encoding))\n                log_conversion('resolve_strings', item, blob)\n                new_items.append(blob)\n            else:\n                new_items.append(item)\n        return new_items\n\n\nresolve_strings = StringResolver('utf-8')\n")]),
+    ('p15-located-helper', ['C15'], [(A, 'def resolve_instructions(items):', 'def located(fn, line, *args, **kwargs):\n    try:\n        return fn(*args, **kwargs)\n    except ValueError as e:\n        raise AssemblerError(str(e), line)\n\n\ndef resolve_instructions(items):'), (A, '        try:\n            # atomic insts expect aq and rl as kwargs\n            if isinstance(item, ATypeInstruction) or isinstance(item, ALTypeInstruction):\n                *args, aq, rl = item.args()\n                code = encode_func(*args, aq=aq, rl=rl)\n            else:\n                args = item.args()\n                code = encode_func(*args)\n        except ValueError as e:\n            raise AssemblerError(str(e), item.line)\n', '        # atomic insts expect aq and rl as kwargs\n        if isinstance(item, (ATypeInstruction, ALTypeInstruction)):\n            *args, aq, rl = item.args()\n            code = located(encode_func, item.line, *args, aq=aq, rl=rl)\n        else:\n            code = located(encode_func, item.line, *item.args())\n')]),
     # ---- C17: helpers, templates, exits ------------------------------------------------------------------------------------
     ('p-cli-write-helper', ['C17'], [(A, "def cli_main():\n", "def write_binary(path, data):\n    with open(path, 'wb') as handle:\n        handle.write(data)\n\n\ndef cli_main():\n"),
                                      (A, "    with open(args.output, 'wb') as out_bin:\n        out_bin.write(binary)\n", "    write_binary(args.output, binary)\n")]),
